@@ -257,6 +257,13 @@ func (u *Unit) zeroValPure(T types.Type) Term {
 }
 
 func (u *Unit) mapSet(st *State, t *types.Map, m Term, k Val, v Val) {
+	// values and keys of interface type are boxed on the way in
+	if _, isI := t.Elem().Underlying().(*types.Interface); isI {
+		v = u.coerce(st, v, t.Elem())
+	}
+	if _, isI := t.Key().Underlying().(*types.Interface); isI {
+		k = u.coerce(st, k, t.Key())
+	}
 	d, vh, c := mapHeaps(t)
 	ks := u.keySort(t)
 	dsort := sArr(SInt, sArr(ks, SBool))
